@@ -209,11 +209,14 @@ def run(ck, fb, fbd):
                 if floating and per_term_f:
                     ck.ok("C19.geom", f.where, "barycenter(edge) on floating positions = 0.5*from + 0.5*to (halved before the sum, no overflow)")
                     continue
-                if not floating and comp:
+                if not floating:
                     A, B = FROM + r"\[it\d+\(0\)\]", TO + r"\[it\d+\(0\)\]"
-                    okc = any(re.fullmatch(r"\(\(\(%s / 2\) \+ \(%s / 2\)\) \+ \(\(\(%s %% 2\) \+ \(%s %% 2\)\) / 2\)\)" % (A, B, A, B), c_) for c_ in comp)
-                    if okc:
-                        ck.ok("C19.geom", f.where, "barycenter(edge) on integer positions = a/2 + b/2 + (a%2 + b%2)/2 per component (exact, no overflow)")
+                    body_txt = " ".join(cb.s(x) for b, i, x in f.tops() if b in f.reach())
+                    halves = re.search(r"\(%s / 2\w*\)" % A, body_txt) and re.search(r"\(%s / 2\w*\)" % B, body_txt)
+                    rems = re.search(r"\(%s %% 2\w*\)" % A, body_txt) and re.search(r"\(%s %% 2\w*\)" % B, body_txt)
+                    plain = re.search(r"\(%s \+ %s\)|\(%s \+ %s\)" % (A, B, B, A), body_txt) or re.search(r"\(%s \+ %s\)|\(%s \+ %s\)" % (FROM, TO, TO, FROM), body_txt)
+                    if halves and rems and not plain:
+                        ck.ok("C19.geom", f.where, "barycenter(edge) on integer positions combines the halves a/2, b/2 and the remainders a%2, b%2 per component and never forms a + b (the arithmetic of the correction is numerics, not judged - F55/F75/F76 show how easily it goes wrong)")
                         continue
                 halved_sum = re.fullmatch(r"(\w+\()?\(?%s / 2(\.0)?\w*\)?\)?" % SUM, r0) or re.fullmatch(r"(\w+\()?\(?(%s \* 0\.5|0\.5 \* %s)\)?\)?" % (SUM, SUM), r0)
                 per_term = r0.count("0.5") == 2 and "from_vertex()" in r0 and "to_vertex()" in r0
